@@ -138,6 +138,7 @@ class Case:
        {'k':'screen', w,h,npw,firstvo,never,always,dontdisc,deferptr,utf8}
        {'k':'connect','c':id,'vo':0/1[,'hold':1]}     hold: newClientHook answers RFB_CLIENT_ON_HOLD
        {'k':'release','c':id}                         rfbStartOnHoldClient
+       {'k':'rev','c':id}                             rfbReverseConnection marks the connection it just made
        {'k':'udpon','hold':0/1} {'k':'udp','data':hex}   the UDP input channel: open the port; one datagram + one pass
        {'k':'hs','c':id,'what':'ver'|'sec'|'auth'|'init', 'data':hex | 'pw':k,'sizes':[..]}
        {'k':'msg','c':id,'data':hex,'sem':[...]}      sem = message-level meaning, see spec()
@@ -159,6 +160,8 @@ class Case:
                 L.append("%s %d %d" % ("hconnect" if s.get("hold") else "connect", s["c"], s["vo"]))
             elif k == "release":
                 L.append("release %d" % s["c"])
+            elif k == "rev":
+                L.append("rev %d" % s["c"])
             elif k == "udpon":
                 L.append("udpon %d" % s["hold"])
             elif k == "udp":
@@ -192,16 +195,18 @@ def with_frags(rng, step, mode=None, boundaries=()):
     return step
 
 
-def handshake(rng, c, scr, minor=8, pw=None, shared=1, vo=0, frag=True, burst=False):
+def handshake(rng, c, scr, minor=8, pw=None, shared=1, vo=0, frag=True, burst=False, rev=False):
     """steps that bring connection c to RFB_NORMAL (or to failure when pw is wrong)"""
     S = [dict(k="connect", c=c, vo=vo)]
+    if rev:
+        S.append(dict(k="rev", c=c))
     ver = ("RFB 003.%03d\n" % minor).encode()
     def snd(what, data):
         st = dict(k="hs", c=c, what=what, data=data.hex())
         if frag:
             with_frags(rng, st)
         return st
-    haspw = scr["npw"] > 0
+    haspw = scr["npw"] > 0 and not rev
     if burst and not haspw:
         # everything at once; the server still takes one state per rfbProcessEvents
         data = ver + (bytes([1]) if minor >= 7 else b"") + (bytes([shared]) if minor != 889 else b"")
@@ -349,6 +354,9 @@ class Spec:
             elif k == "release":
                 if s["c"] in self.cl:
                     self.cl[s["c"]]["held"] = False
+            elif k == "rev":
+                if s["c"] in self.cl:
+                    self.cl[s["c"]]["rev"] = True       # outgoing connection: no password asked, no sharing test
             elif k == "udpon":
                 if self.udp is None:
                     self.udp = dict(hold=bool(s["hold"]))
@@ -411,7 +419,7 @@ class Spec:
                     return True
                 c["minor"] = int(txt[8:11])
                 if c["minor"] < 7:
-                    c["phase"] = "auth" if scr["npw"] > 0 else "init"
+                    c["phase"] = "auth" if (scr["npw"] > 0 and not c.get("rev")) else "init"
                 else:
                     c["phase"] = "sec"
                 return True
@@ -419,9 +427,10 @@ class Spec:
                 if c["phase"] != "sec":
                     return None
                 t = bytes.fromhex(s["data"])[0]
-                if t != (2 if scr["npw"] > 0 else 1):
+                needpw = scr["npw"] > 0 and not c.get("rev")
+                if t != (2 if needpw else 1):
                     self.close(i)
-                elif scr["npw"] > 0:
+                elif needpw:
                     c["phase"] = "auth"
                 elif c["minor"] == 889:
                     return self.enter_normal(i, 1)
@@ -489,7 +498,7 @@ class Spec:
         scr = self.scr
         c = self.cl[i]
         c["phase"] = "normal"
-        if scr["never"] or (not scr["always"] and not shared):
+        if not c.get("rev") and (scr["never"] or (not scr["always"] and not shared)):
             others = [j for j, o in self.cl.items() if j != i and o["phase"] == "normal"]
             if scr["dontdisc"]:
                 if others:
@@ -931,6 +940,29 @@ def case_hold(rng):
     return Case("hold", steps)
 
 
+def case_reverse(rng):
+    """connections made by rfbReverseConnection next to ordinary ones: the outgoing connection is not asked for the
+    password and its ClientInit never triggers the sharing test (it neither closes the others nor is refused),
+    whatever neverShared / alwaysShared / dontDisconnect and its shared flag say; an ordinary connection arriving
+    afterwards still closes it / is refused because of it.  Input of all of them is delivered as usual."""
+    npw = rng.choice([0, 0, 1, 2])
+    scr = rnd_screen(rng, npw=npw, firstvo=rng.randint(0, npw) if npw else 0, never=rng.choice([0, 0, 1]),
+                     always=rng.choice([0, 0, 1]), dontdisc=rng.choice([0, 1]))
+    steps = [scr]
+    order = [0, 1, 2] if rng.random() < 0.6 else [0, 1]
+    revs = set(c for c in order if rng.random() < 0.5) or {order[-1]}
+    for c in order:
+        steps += handshake(rng, c, scr, minor=rng.choice([3, 7, 8]), pw=0 if npw else None, shared=rng.choice([0, 0, 1]),
+                           rev=(c in revs))
+        for st in msgs_for(rng, c, rng.randint(0, 2)):
+            steps += [st, dict(k="p", n=1)]
+    for _ in range(rng.randint(1, 5)):
+        c = rng.choice(order)
+        for st in msgs_for(rng, c, 1):
+            steps += [st, dict(k="p", n=1)]
+    return Case("reverse", steps)
+
+
 def case_sx(rng, exhaustive_slice=None):
     steps = [screen_step()]
     for _ in range(60):
@@ -1000,6 +1032,8 @@ def gen_cases(ctx):
         add(case_udp(rng))
     for _ in range(25 * mult):
         add(case_hold(rng))
+    for _ in range(30 * mult):
+        add(case_reverse(rng))
     for ln in [0, 1, LIMIT - 1, LIMIT, LIMIT + 1, 0x80000000, 0xFFFFFFFF] + ([LIMIT, LIMIT, LIMIT + 1, 65536, 65537] if not quick else []):
         add(case_cutlimit(rng, ln), recut=(ln <= 65536 or not quick))
     for _ in range(10 * mult):
